@@ -8,11 +8,14 @@ ALL values of the pool, and the complete output table is compared with
   (b) a plain-Python oracle written from the documentation   -> search.
 """
 import concurrent.futures
+import contextlib
 import enum
+import io
 import itertools
 import json
 import multiprocessing
 import random
+import time
 
 import pyrtl
 from pyrtl.rtllib import muxes, barrel, libutils
@@ -250,7 +253,7 @@ def o_enum(c, ws, env):
 # ---- MultiSelector
 def b_multi(c, P):
     dests = [pyrtl.WireVector(w) for w in c['dws']]
-    with muxes.MultiSelector(s_build(P, c['sel']), *dests) as ms:
+    with contextlib.redirect_stdout(io.StringIO()), muxes.MultiSelector(s_build(P, c['sel']), *dests) as ms:
         for k, data in c['opts']:
             if k is None:
                 ms.default(*[s_build(P, s) for s in data])
@@ -773,7 +776,7 @@ def gen_mux(rng, tier):
 def gen_pmux(rng, tier):
     out = []
     reps = 3 if tier == 'quick' else 10
-    for n in range(1, 8 if tier == 'quick' else 10):
+    for n in range(1, 7 if tier == 'quick' else 8):
         ws = [n] + DATA_POOL
         for rep in range(reps):
             sels = [('S', 0, j, j + 1) for j in range(n)]
@@ -1071,6 +1074,8 @@ def gen_wrap(rng, tier):
     out = []
     for sch in [('S', [('L', 1), ('L', 2)]), ('M', ('L', 1), 3)]:
         for op in WRAP_OPS:
+            if sch[0] == 'M' and op in ('slice', 'index'):
+                continue        # wire_matrix documents [] as component access (word[0] = msb component)
             out.append({'fam': 'wrapped', 'ws': [3, 2], 'sch': sch, 'op': op})
     return out
 
@@ -1128,14 +1133,17 @@ def run_configs(ctx, cfgs):
         qidx = [i for i, c in enumerate(cfgs) if FAMS[c['fam']][1] is not None]
         exprs = [FAMS[cfgs[i]['fam']][1](cfgs[i]) for i in qidx]
         model = {}
+        t_q = time.time()
         try:
             mres = ctx.coq_eval(exprs, IMPORTS, tag='c14', shard=max(20, len(exprs) // 40 + 1), jobs=14)
             model = dict(zip(qidx, mres))
         except Exception as e:
             ctx.model_mismatch('Front/C14Harness.v could not be evaluated: %s' % str(e)[-800:], {})
+        ctx.notes.append('coq model evaluation %.1fs for %d expressions' % (time.time() - t_q, len(exprs)))
         for idxs, f in futs:
             for i, r in zip(idxs, f.result()):
                 results[i] = r
+        ctx.notes.append('simulation+oracle done %.1fs after start of model evaluation' % (time.time() - t_q))
     for i, (c, r) in enumerate(zip(cfgs, results)):
         fam = c['fam']
         key = (fam, json.dumps(c, sort_keys=True, default=str))
